@@ -104,6 +104,8 @@ class Inventory:
         self.prov: Dict[tuple, str] = {}  # key -> "defaults:<where>:<defaults key>" / "explicit-over-defaults:<where>:<key>"
         self.files: List[tuple] = []  # (host, folder, acceptable names, size or None, type or None)
         self.free_suffixes: List[str] = []  # hostnames created by node sets end with _<lan_name>
+        self.folder_defaults: Dict[str, tuple] = {}  # "scan"/"restore" -> (value, where, defaults key): holds for EVERY
+        # folder of every declared node, also those created by software at install time or later at run time
         self.nodesets: List[Dict] = []  # wiring facts of each node set (checked on the built link graph)
 
     def _free_host(self, h) -> bool:
@@ -217,6 +219,10 @@ def derive(cfg: Dict) -> Inventory:
     dfl, dfl_where = defaults_block(cfg)
     if dfl:
         inv.notes[f"defaults@{dfl_where}"] = 1
+
+    for d, dk in (("scan", "folder_scan_duration"), ("restore", "folder_restore_duration")):
+        if dk in dfl:
+            inv.folder_defaults[d] = (int(dfl[dk]), dfl_where, dk)
 
     for n in net.get("nodes") or []:
         t = n["type"]
